@@ -6,7 +6,7 @@
 (***************************************************************************)
 EXTENDS Integers, Sequences, FiniteSets, TLC, Json
 
-CONSTANTS Ns, Ps, Qs      \* sets of agent counts and of skew numerators / denominators
+CONSTANTS Triples         \* set of <<n, p, q>>: number of agents and skew p/q (chosen so that n(n-1)(p+q) stays below 2^31)
 VARIABLES n, p, q, dist, phase
 skvars == <<n, p, q, dist, phase>>
 
@@ -20,7 +20,7 @@ Weights(nn, pp, qq) ==
     IF nn = 1 THEN << <<1, 1>> >>
     ELSE LET total == SumRaw(nn, pp, qq, nn) IN [i \in 1 .. nn |-> <<RawNum(nn, pp, qq, i), total>>]
 
-Init == /\ n \in Ns /\ p \in Ps /\ q \in Qs /\ dist = <<>> /\ phase = "args"
+Init == \E t \in Triples : n = t[1] /\ p = t[2] /\ q = t[3] /\ dist = <<>> /\ phase = "args"
 Compute == /\ phase = "args" /\ dist' = Weights(n, p, q) /\ phase' = "done" /\ UNCHANGED <<n, p, q>>
 Spec == Init /\ [][Compute]_skvars
 
@@ -36,7 +36,9 @@ SumsToOne  == Done => NumSum(dist, n) = dist[1][2]          \* common denominato
 CommonDen  == Done => \A i \in 1 .. n : dist[i][2] = dist[1][2]
 Arithmetic == Done => \A i \in 2 .. n - 1 : dist[i + 1][1] - dist[i][1] = dist[i][1] - dist[i - 1][1]
 (* (all weights share one denominator: compare numerators; keeps the products within TLC's 32-bit integers) *)
-LastIsSTimesFirst == Done /\ n >= 2 => dist[n][2] = dist[1][2] /\ dist[n][1] * q = p * dist[1][1]
+LastIsSTimesFirst == Done /\ n >= 2 /\ p <= 2000 /\ q <= 2000 => dist[n][2] = dist[1][2] /\ dist[n][1] * q = p * dist[1][1]
+(* the same ratio without a product of p and q (skews like 100001/100000): first : last = (n-1)q : (n-1)p *)
+LastFirstRatio == Done /\ n >= 2 => dist[n][2] = dist[1][2] /\ dist[1][1] = (n - 1) * q /\ dist[n][1] = (n - 1) * p
 SingleAgent == Done /\ n = 1 => dist = << <<1, 1>> >>
 Export == Done => PrintT("EXPORT " \o ToJson([n |-> n, p |-> p, q |-> q, dist |-> dist]))
 =============================================================================
